@@ -405,6 +405,8 @@ impl CharRefTokenizer {
         input: &BufferQueue,
     ) -> CharRef {
         loop {
+            #[cfg(feature = "verif")]
+            markup5ever::verif::tick(6);
             let status = match self.state {
                 State::Begin => Status::Done(CharRef::EMPTY),
                 State::Numeric(_) if !self.seen_digit => self.unconsume_numeric(tokenizer, input),
